@@ -57,6 +57,13 @@ from term_image.image.common import ImageMeta
 from term_image.image.iterm2 import ITerm2ImageMeta
 
 tests.set_cell_size((10, 20))
+
+
+def cell_size():
+    from term_image.utils import get_cell_size
+    return get_cell_size()
+
+
 IMG = Image.new("RGB", (4, 4), (10, 20, 30))
 METHODS = ["lines", "whole", "anim"]
 SETTINGS = {"kitty": ["rm", "fs"], "iterm2": ["rm", "fs", "jq", "rff", "nam"]}
@@ -82,7 +89,9 @@ def source_files():
         rgb[0].save(n, save_all=True, append_images=rgb[1:], duration=100, loop=0)
         st = os.path.join(d, "s.png")
         rgb[1].save(st)
-        for key, path in (("g", g), ("n", n), ("s", st)):
+        big = os.path.join(d, "b.png")  # a static file LARGER than small renders (40 x 30 pixels)
+        Image.frombytes("RGB", (40, 30), bytes((7 * i) % 256 for i in range(3600))).save(big)
+        for key, path in (("g", g), ("n", n), ("s", st), ("b", big)):
             with open(path, "rb") as f:
                 _FILES[key] = (path, f.read())
         _FILES["q"] = _FILES["g"]
@@ -91,7 +100,7 @@ def source_files():
 
 def src_info():
     f = source_files()
-    return {key: {"animated": int(key != "s"), "size": len(f[key][1])} for key in f}
+    return {key: {"animated": int(key not in "sb"), "size": len(f[key][1])} for key in f}
 
 
 def used_method(out, root, data):
@@ -115,8 +124,51 @@ def used_method(out, root, data):
     return 2 if payload == data else -2  # the whole animated file, untouched
 
 
-def do_render(inst, root, o, data):
-    """[method used, warning issued] of one render operation."""
+KITTY_ANY = re.compile(r"\x1b_G([^;\x1b]*)(?:;([^\x1b]*))?\x1b\\")
+
+
+def payload_rows(out, root, data):
+    """What a render TRANSMITS: [pixel width, pixel height, verbatim] of every image in it, in
+    order, flattened.  iterm2: every payload is decoded with PIL (its pixel size) and compared
+    with the source file's bytes (verbatim).  kitty: the pixel columns / rows each transmission
+    declares (s=, v=), verified against the length of its (decompressed) pixel data; a payload
+    that cannot be decoded reads [-1, -1, 0]."""
+    rows = []
+    if root == "kitty":
+        import zlib
+
+        txs = []
+        for ctl, chunk in KITTY_ANY.findall(out):
+            keys = dict(kv.split("=", 1) for kv in ctl.split(",") if "=" in kv)
+            if "f" in keys:
+                txs.append((keys, [chunk]))
+            elif txs and set(keys) <= {"m"}:
+                txs[-1][1].append(chunk)
+        for keys, chunks in txs:
+            try:
+                raw = standard_b64decode("".join(chunks))
+                if keys.get("o") == "z":
+                    raw = zlib.decompress(raw)
+                w, h = int(keys["s"]), int(keys["v"])
+                ok = len(raw) == w * h * int(keys["f"]) // 8
+            except Exception:
+                ok = False
+            rows += [w, h, 0] if ok else [-1, -1, 0]
+        return rows
+    for _, b64 in ITERM2_TX.findall(out):
+        payload = standard_b64decode(b64)
+        try:
+            with Image.open(io.BytesIO(payload)) as im:
+                im.load()
+                rows += [im.size[0], im.size[1], int(bool(data) and payload == data)]
+        except Exception:
+            rows += [-1, -1, 0]
+    return rows
+
+
+def do_render(inst, root, o, data, geo=False):
+    """[method used, warning issued] of one render operation; with [geo]: [warning issued,
+    pixel width, pixel height, verbatim, ...] (what was transmitted, see payload_rows)."""
     m = o.get("m")
     spec = "" if m is None else "+" + "LWA"[m]
     with warnings.catch_warnings(record=True) as caught:
@@ -136,6 +188,8 @@ def do_render(inst, root, o, data):
             return [-9, 0, type(e).__name__]
     warned = [w for w in caught if issubclass(w.category, TermImageUserWarning)
               and "native animation" in str(w.message)]
+    if geo:
+        return [int(bool(warned))] + payload_rows(out, root, data)
     return [used_method(out, root, data), int(bool(warned))]
 
 
@@ -464,18 +518,22 @@ def run_case(case):
         instantiable = case.get("inst_ok", range(len(classes)))
         kinds = case.get("src") or ["p"] * len(case["icls"])
         insts, datas = [], []
-        for c, kd in zip(case["icls"], kinds):
+        geo = case.get("geo")  # per instance: [columns, lines] of its render
+        if geo and case.get("rff") is not None and root == "iterm2":
+            Root.read_from_file = bool(case["rff"])
+        for j, (c, kd) in enumerate(zip(case["icls"], kinds)):
+            size = {"width": geo[j][0], "height": geo[j][1]} if geo else None
             if kd == "p":
-                insts.append(classes[c](IMG, width=2, height=2))
+                insts.append(classes[c](IMG, **(size or {"width": 2, "height": 2})))
                 datas.append(b"")
                 continue
             path, data = source_files()[kd]
             if kd == "q":
                 pil = Image.open(path)
                 opened.append(pil)
-                insts.append(classes[c](pil, height=2))
+                insts.append(classes[c](pil, **(size or {"height": 2})))
             else:
-                insts.append(classes[c].from_file(path, height=2))
+                insts.append(classes[c].from_file(path, **(size or {"height": 2})))
             datas.append(data)
         settings = SETTINGS[root]
         renders = []
@@ -492,7 +550,7 @@ def run_case(case):
                 if "route" in o:
                     renders.extend(do_route(insts[o["t"]], root, o, datas[o["t"]]))
                 else:
-                    renders.append(do_render(insts[o["t"]], root, o, datas[o["t"]]))
+                    renders.append(do_render(insts[o["t"]], root, o, datas[o["t"]], bool(geo)))
                 for s2 in settings:  # a render changes no setting
                     snap = snapshot(s2)
                     if snap != cur[s2]:
@@ -514,8 +572,9 @@ def run_case(case):
                 elif snap != cur[s2]:
                     interference.append([k, s2])
                 cur[s2] = snap
-            # behavioural confirmation: the framing of an actual render of every instance
-            for j, inst in enumerate(insts):
+            # behavioural confirmation: the framing of an actual render of every instance (renders
+            # two lines high; with other geometries the payloads of the renders are judged instead)
+            for j, inst in enumerate(insts if not geo else ()):
                 want = cur["rm"][len(classes) + j]
                 with warnings.catch_warnings():
                     warnings.simplefilter("ignore")
@@ -563,6 +622,9 @@ def run_case(case):
                      "error": type(e).__name__}
         return {"obs": obs, "interference": interference, "framing_bad": framing_bad, "final": final,
                 "renders": renders, "srcs": [[int(i.is_animated), len(d), i.n_frames] for i, d in zip(insts, datas)],
+                "ginfo": [list(i.rendered_size) + list(cell_size()) + list(i.original_size) + [int(kd != "p")]
+                          for i, kd in zip(insts, kinds)] if geo else None,
+                "rff": [int(i.read_from_file) for i in insts] if geo and root == "iterm2" else None,
                 "mros": mros, "clean_start": clean_start}
     finally:
         for inst in insts:
